@@ -68,6 +68,13 @@ fn gen_tree(p: &mut Pool, depth: usize) -> OptSpec {
             opts,
         })));
     }
+    if p.rng.chance(1, 5) {
+        // an alternative made of named items only, listed before the commands: it succeeds on
+        // nothing, the command that was entered must still decide the outcome
+        let k = p.rng.range(1, 2);
+        let named: Vec<Spec> = (0..k).map(|_| p.named_field()).collect();
+        cmds.insert(0, Spec::Seq(named));
+    }
     let a = Spec::Alt(cmds);
     if p.rng.chance(1, 4) {
         let id = p.id();
